@@ -1076,12 +1076,19 @@ class Parser:
             # GH#294: Track key positions for duplicate detection in block children
             block_key_positions: dict[str, list[int]] = {}
 
-            # Issue #259: Literal zone directly after block colon (no indented children).
+            # Issue #259: Literal zone directly after block colon.
             # Token stream: IDENTIFIER -> BLOCK ':' -> NEWLINE -> FENCE_OPEN ...
-            # After skip_whitespace() the NEWLINE is consumed and current() is FENCE_OPEN.
-            # The normal INDENT-gated path would leave children empty, silently dropping
-            # the literal zone (I1 violation). Parse it here into a bare-key Assignment.
-            if self.current().type == TokenType.FENCE_OPEN:
+            # A fence line is lexed as one span starting at the beginning of the line, so no
+            # INDENT token precedes FENCE_OPEN; the token carries the fence line's indent.
+            # A zone indented deeper than the block is its first child and further children
+            # may follow it. A zone at the block's own indent directly after the colon is the
+            # Issue #259 form (TEMPLATE:/```...```): it is the block's only child. A zone indented
+            # less than the block belongs to an ancestor and is left for it.
+            first_child_is_fence = (
+                self.current().type == TokenType.FENCE_OPEN and self._fence_indent(base_indent) > base_indent
+            )
+
+            if self.current().type == TokenType.FENCE_OPEN and self._fence_indent(base_indent) == base_indent:
                 lzv = self.parse_literal_zone()
                 children.append(
                     Assignment(
@@ -1095,9 +1102,14 @@ class Parser:
             # Expect indentation for children. Children must be indented deeper than the
             # block's own line: an empty block ("B2:" with nothing under it) followed by a
             # sibling at the same indent must not adopt that sibling as its child.
-            elif self.current().type == TokenType.INDENT and self.current().value > base_indent:
-                child_indent = self.current().value
-                self.advance()
+            elif first_child_is_fence or (
+                self.current().type == TokenType.INDENT and self.current().value > base_indent
+            ):
+                if first_child_is_fence:
+                    child_indent = self._fence_indent(base_indent)
+                else:
+                    child_indent = self.current().value
+                    self.advance()
 
                 # GH#81: Track current line's indentation to detect implicit dedent
                 # When NEWLINE is consumed without subsequent INDENT, the next token
@@ -1134,6 +1146,13 @@ class Parser:
                         # Next INDENT token will update it, or absence means column 0
                         current_line_indent = 0
                         continue
+
+                    # Issue #259: a fence line carries its own indentation (no INDENT token
+                    # precedes FENCE_OPEN), so take the line's indent from the token. Without
+                    # this a zone that follows another child looked like a column-0 line and
+                    # was dropped together with the rest of the block.
+                    if self.current().type == TokenType.FENCE_OPEN:
+                        current_line_indent = self._fence_indent(child_indent)
 
                     # GH#81: Check for implicit dedent before parsing child
                     # If current line has less indentation than block children expect,
@@ -1216,6 +1235,16 @@ class Parser:
             }
         )
         return None
+
+    def _fence_indent(self, default: int) -> int:
+        """Indentation of the fence line of the current FENCE_OPEN token.
+
+        Token lists built by older callers may lack the indent; they get `default`.
+        """
+        data = self.current().value
+        if isinstance(data, dict) and isinstance(data.get("indent"), int):
+            return int(data["indent"])
+        return default
 
     def parse_literal_zone(self) -> LiteralZoneValue:
         """Parse a literal zone from FENCE_OPEN, LITERAL_CONTENT, FENCE_CLOSE tokens.
